@@ -109,12 +109,32 @@ def _make_task_class() -> Any:
             elif kind == "jumper":
                 jkey = "_j_" + self.name
                 c = int(ctx.get(jkey, 0) or 0)
-                if c < int(spec.get("n", 1)):
-                    result = TaskResult.jump_to(spec["target"], context={jkey: c + 1, self.itkey: it + 1})
+                vkey = "_v_" + self.name
+                visits = int(ctx.get(vkey, 0) or 0)
+                alt = int(spec.get("alt", 0) or 0)      # "alt": k -> jumps only on every k-th visit, passes otherwise
+                wants = c < int(spec.get("n", 1)) and (not alt or visits % alt == 0)
+                if wants:
+                    result = TaskResult.jump_to(spec["target"], context={jkey: c + 1, self.itkey: it + 1, vkey: visits + 1})
                     descr = f"jumper:jump:{c}"
                 else:
-                    result = TaskResult.success(outputs=self._outputs(it), context=dict(done))
+                    d2 = dict(done)
+                    if alt:
+                        d2[vkey] = visits + 1
+                    result = TaskResult.success(outputs=self._outputs(it), context=d2)
                     descr = f"jumper:pass:{c}"
+            elif kind == "suspender" and int(spec.get("n", 1) or 1) > 1:
+                # waits for n signals: every execution after the first one was caused by a resume
+                need = int(spec["n"])
+                xkey, gkey = "_sx_" + self.name, "_sg_" + self.name
+                got = int(ctx.get(gkey, 0) or 0) + (1 if ctx.get(xkey) else 0)
+                if got >= need:
+                    out = self._outputs(it)
+                    out["sig_" + self.ref] = {"name": ctx.get("_signal_name"), "data": ctx.get("_signal_data")}
+                    result = TaskResult.success(outputs=out, context=dict(done))
+                    descr = f"suspender:resumed:{got}"
+                else:
+                    result = TaskResult.suspend(context={xkey: True, gkey: got})
+                    descr = "suspender:suspend" if got == 0 else f"suspender:resumed-suspend:{got}"
             elif kind == "suspender":
                 sig = ctx.get("_signal_name")
                 if sig:
